@@ -156,7 +156,8 @@ MutResolve(F, S) ==
 (* ---------- state machine ---------- *)
 FB == {f \in [cat : Cats, prio : Prios, trig : Trigs, muted : Muteds, kind : Kinds, els : Elses,
               label : Labels, flds : Flds, correct : Corrects, valence : Valences,
-              score : Scores, unscored : Unscoreds, msg : Msgs] : f.trig => ~f.els}
+              score : Scores, unscored : Unscoreds, msg : Msgs] : TRUE}
+\* (a TRIGGERED feedback may carry an else_message too: it is simply not used, whatever the valence)
 
 Init == fbs = <<>> /\ supp = {} /\ result = None
 
